@@ -353,6 +353,9 @@ class Check:
                 self.known_hits.append(key)
                 print(f"KNOWN-FINDING: property={self.id} {k.get('what', what)}")
             return
+        if len(self.violations) >= 10:
+            self.violations.append(self.violations[-1])
+            return
         os.makedirs(os.path.join(VERIF, "replays"), exist_ok=True)
         h = hashlib.md5(json.dumps(case, sort_keys=True, default=str).encode()).hexdigest()[:10]
         path = os.path.join(VERIF, "replays", f"{self.id}-{h}.json")
